@@ -141,16 +141,20 @@ def build_world(case):
     fmt = case.get('fmt', 'json')
     name = 'isa.' + fmt
     sched = case.get('sched', {})
-    argv = ['bespokeasm', 'generate-extension', case['target'], '-c', name, '-d', OUT] + list(case.get('opts', []))
+    argv = ['bespokeasm', 'generate-extension', case['target'], '-c', name] + (
+        [] if case.get('default_dir') else ['-d', OUT]) + list(case.get('opts', []))
     pre = case.get('_state') or {}
     files = dict(pre.get('files', {}))
-    files[f'{PDIR}/{name}'] = gen.isa_text(isa, fmt)
+    files[f'{PDIR}/{name}'] = gen.isa_text(isa, fmt)      # ASCII only (\u escapes): reading it is locale independent
     w = {'files': files, 'dirs': list(pre.get('dirs', [])) + ([] if case.get('no_out_dir') else [OUT]) + [
             '/sim/home', '/sim/tmp'],
          'argv': argv, 'cwd': PDIR, 'env': {'HOME': '/sim/home'}, 'epoch': sched.get('epoch', 1.7e9),
          'set_seed': sched.get('set_seed'), 'list_seed': sched.get('list_seed'),
          'tmp_names': sched.get('tmp_names', []), 'step_budget': 6_000_000, 'faults': list(case.get('faults', [])),
-         'resource_mtime': sched.get('resource_mtime')}
+         'resource_mtime': sched.get('resource_mtime'), 'encoding': sched.get('encoding', 'utf-8'),
+         'stdout_encoding': 'utf-8', 'mtimes': dict(pre.get('mtimes', {}))}
+    if case.get('isa_mtime') is not None:
+        w['mtimes'][f'{PDIR}/{name}'] = case['isa_mtime']
     return w
 
 
@@ -384,7 +388,7 @@ def check_outputs(files, case, isa):
     target = case['target']
     vocab = vocab_of(isa)
     name = isa['general'].get('identifier', {}).get('name', 'isa').strip().replace(' ', '_')
-    outs = {p: c for p, c in files.items() if p.startswith(OUT + '/') or p.startswith(case.get('real_out', '\0'))}
+    outs = {p: c for p, c in files.items() if p.startswith(OUT + '/') or p.startswith('/sim/home/')}
     if not outs:
         return ['GEN-no-output-files'], {}
 
@@ -546,6 +550,9 @@ def check_case(case):
         return {'violations': [], 'observed': obs, 'result': r}
     if r['kind'] == 'step_budget':
         return {'violations': ['GEN-nontermination'], 'observed': obs, 'result': r}
+    if (r['kind'] == 'exception' or r['exit'] != 0) and case.get('faults') and r.get('fired'):
+        obs['under_fault'] = [f['kind'] for f in r['fired']]
+        return {'violations': [], 'observed': obs, 'result': r}
     if r['kind'] == 'exception' or r['exit'] != 0:
         if sched.get('epoch', 1.7e9) < 315532800.0:
             obs['observed_only'] = 'pre-1980 epoch'
@@ -553,6 +560,8 @@ def check_case(case):
         return {'violations': ['GEN-generation-failed'], 'observed': obs, 'result': r}
     v, detail = check_outputs(r['files'], case, isa)
     obs['detail'] = detail
+    if case.get('faults') and r.get('fired'):
+        v = v + ['IO-' + x for x in v]      # reported under this name when found by the fault tier
     return {'violations': v, 'observed': obs, 'result': r}
 
 
@@ -560,7 +569,7 @@ def generated_outputs(files, target):
     """the generated package as comparable content: {name: text}; zip members are unpacked (timestamps ignored)"""
     out = {}
     for p, c in files.items():
-        if not p.startswith(OUT + '/'):
+        if not (p.startswith(OUT + '/') or p.startswith('/sim/home/')):
             continue
         if p.endswith('.sublime-package'):
             try:
@@ -587,9 +596,13 @@ def check_two_runs(case):
     if r1['kind'] in ('crash', 'wall_timeout') or r1.get('gaps'):
         return {'violations': [], 'observed': obs, 'result': r1}
     state = {'files': {p: c for p, c in r1['files'].items() if not p.startswith(PDIR + '/')},
-             'dirs': [d for d in r1.get('dirs', []) if d.startswith('/sim/') and d != PDIR]}
+             'dirs': [d for d in r1.get('dirs', []) if d.startswith('/sim/') and d != PDIR],
+             'mtimes': {p: t for p, t in r1.get('mtimes', {}).items() if not p.startswith(PDIR + '/')}}
     c2 = {k: v for k, v in case.items() if k != 'prior'}
     c2['_state'] = state
+    if case.get('isa_older_than_leftovers') and state['mtimes']:
+        # e.g. a definition copied with its old timestamp (cp -p, tar, rsync -t) after the earlier generation
+        c2['isa_mtime'] = min(state['mtimes'].values()) - 86400.0
     r2 = child.run_world(build_world(c2))
     c0 = {k: v for k, v in case.items() if k not in ('prior', '_state')}
     r0 = child.run_world(build_world(c0))
@@ -606,7 +619,7 @@ def check_two_runs(case):
         v.append('ST-run-fails-because-of-leftovers-of-earlier-run')
         return {'violations': v, 'observed': obs, 'result': r2}
     isa = effective_isa(case)
-    mine_paths = {p for p in r0['files'] if p.startswith(OUT + '/')}
+    mine_paths = {p for p in r0['files'] if p.startswith(OUT + '/') or p.startswith('/sim/home/')}
     wf, detail = check_outputs({p: c for p, c in r2['files'].items() if p in mine_paths}, case, isa)
     wf = [x for x in wf if x != 'WF-temporary-files-left-behind']
     v += wf
@@ -622,6 +635,8 @@ def check_two_runs(case):
 
 
 def shrink_paths(case):
+    if case.get('faults'):
+        return [('macro_keep',), ('opts',)]      # fault positions are event indices of this exact world
     return [('instr_keep',), ('macro_keep',), ('opts',)]
 
 
@@ -683,7 +698,8 @@ def gen_sched(rnd):
     return {'set_seed': rnd.randrange(1, 1 << 30), 'list_seed': rnd.randrange(1, 1 << 30),
             'tmp_names': [rnd.choice(['a1b2', 'zz_9', 'Q', '0000'])],
             'epoch': rnd.choice([1.7e9, 3.2e8, 9.5e8, 2.0e9, 4.0e9]),
-            'resource_mtime': rnd.choice([None, 0.0, 86400.0, 3.0e8, 1.7e9, 4.2e9])}
+            'resource_mtime': rnd.choice([None, 0.0, 86400.0, 3.0e8, 1.7e9, 4.2e9]),
+            'encoding': rnd.choice(['utf-8', 'utf-8', 'ascii', 'latin-1', 'cp1252'])}
 
 
 def alternation_orders(files):
@@ -713,6 +729,8 @@ def explore(subseed, cfg):
             'fmt': rnd.choice(['json', 'yaml']), 'opts': []}
     # command-line options of the generator are part of the configuration space
     base['opts'] += ['-v'] * rnd.choice([0, 0, 1, 2, 3, 4])
+    if rnd.random() < 0.15:
+        base['default_dir'] = True      # no -d: the editor's configuration directory under $HOME
     if rnd.random() < 0.2:
         base['opts'] += ['-x', rnd.choice(['asm', 's', 'a51'])]
     if rnd.random() < 0.15:
@@ -761,6 +779,39 @@ def explore(subseed, cfg):
                         alts = m.group(1).split('|')
                         if 'if' in alts and 'ifdef' in alts and alts.index('if') < alts.index('ifdef'):
                             pr['if_ordered_before_ifdef'] = pr.get('if_ordered_before_ifdef', 0) + 1
+        # single I/O faults on every file the generator writes: a fault may make the run fail, but a run that reports
+        # success must have produced a complete, well-formed package
+        c0 = dict(copy.deepcopy(base), target=target, sched={})
+        r0 = child.run_world(build_world(c0))
+        out['runs'] += 1
+        if r0['kind'] == 'exit' and r0['exit'] == 0 and not r0.get('gaps'):
+            plans = []
+            for idx, op, path, detail in r0['events']:
+                if op == 'open' and any(ch in (detail or '') for ch in 'wax+') and not str(detail).startswith('os.open'):
+                    size = len(r0['files'].get(path, '')) or 200
+                    plans.append([{'at': idx, 'kind': 'open_enospc'}])
+                    plans.append([{'at': idx, 'kind': 'close_eio'}])
+                    for kk in sorted({0, size // 2, max(size - 30, 0), max(size - 1, 0)}):
+                        plans.append([{'at': idx, 'kind': 'write_enospc_after', 'k': kk}])
+            for faults in rnd.sample(plans, min(len(plans), cfg.get('fault_cases', 14))):
+                c = dict(copy.deepcopy(c0), faults=faults)
+                res = check_case(c)
+                r = res['result']
+                out['runs'] += 1
+                out['evaluations'] += 1
+                for f in r.get('fired', []):
+                    out['faults_fired'][f['kind']] = out['faults_fired'].get(f['kind'], 0) + 1
+                if r.get('gaps'):
+                    out['harness'].append(f'HARNESS-GAP {r["gaps"][:2]}')
+                    continue
+                if r['kind'] == 'exit' and r['exit'] == 0 and r.get('fired'):
+                    pr['success_despite_fired_fault'] = pr.get('success_despite_fired_fault', 0) + 1
+                    for vv in res['violations']:
+                        if vv.startswith('IO-'):
+                            out['violations'].append({'case': c, 'class': vv, 'group': target + ':fault'})
+                elif r['kind'] != 'exit' or r['exit'] != 0:
+                    pr['run_failed_under_fault'] = pr.get('run_failed_under_fault', 0) + 1
+                out['distinct'].add(H((vd, target, 'fault', str(faults))) & 0xFFFFFFFFFFFF)
         # histories of two runs sharing the file system
         for _ in range(cfg.get('two_run', 2)):
             mode = rnd.choice(['prior-bigger-same-name', 'prior-fails-no-out-dir', 'prior-io-fault', 'prior-other-isa'])
@@ -785,6 +836,9 @@ def explore(subseed, cfg):
                 other = gen_vocab_isa(rnd)
                 c['prior'] = {'isa': other, 'instr_keep': list(other['instructions']),
                               'macro_keep': list(other.get('macros', {}))}
+            if rnd.random() < 0.5:
+                c['isa_older_than_leftovers'] = True
+                pr['two_run_isa_older_than_leftovers'] = pr.get('two_run_isa_older_than_leftovers', 0) + 1
             res = check_case(c)
             out['runs'] += 3
             out['evaluations'] += 1
